@@ -18,7 +18,7 @@ REQUIRED = {"jvp_state": {"quick": 80, "thorough": 300}, "jvp_param": {"quick": 
             "finite": {"quick": 150, "thorough": 500}, "linear_jacobian": {"quick": 15, "thorough": 25}, "through_rollout": {"quick": 60, "thorough": 200}}
 ASSUMPTIONS = ["domain_extent is not among the arguments the property lists (d/dL of Wave is NaN: recorded as an observation, not judged)",
                "a case whose two Richardson estimates disagree by more than 1e-4 of the scale is skipped as FD-unreliable, not judged"]
-TIMEOUT = {"quick": 1500, "thorough": 3400}
+TIMEOUT = {"quick": 2400, "thorough": 7200}
 
 
 def cases(tier, seed):
